@@ -42,7 +42,7 @@ type Step struct {
 
 type Block struct {
 	Steps   []Step `json:"steps"`
-	Outcome string `json:"outcome"` // nil error panic
+	Outcome string `json:"outcome"` // nil error adderror panic
 }
 
 type Case struct {
@@ -143,8 +143,10 @@ func (g *gen) block(depth int) *Block {
 	switch x := g.r.Intn(10); {
 	case x < 5:
 		b.Outcome = "nil"
-	case x < 8:
+	case x < 7:
 		b.Outcome = "error"
+	case x < 8:
+		b.Outcome = "adderror" // `return tx.AddError(err)`: the error is also left on the handle the block was given
 	default:
 		b.Outcome = "panic"
 	}
@@ -567,6 +569,9 @@ func (r *run) body(tx *gorm.DB, b *Block, depth int, path string) error {
 	case "error":
 		r.nextID++
 		return &blockErr{r.nextID}
+	case "adderror":
+		r.nextID++
+		return tx.AddError(&blockErr{r.nextID})
 	case "panic":
 		r.nextID++
 		panic(&panicVal{r.nextID})
